@@ -545,9 +545,9 @@ pub fn big_wrapped(ctx: &Ctx, name: &str, st: &mut Local, f: mutspace::BSink) {
 
 pub fn run_c01(ctx: &Ctx, st: &mut Local) {
     let cfg = if ctx.quick() {
-        E9Cfg { full_wrappers: false, junk_pre: vec![0, 3, 6, 11, 16, 19], junk_post: vec![0, 1, 8], odd: true, depth2: true, only_supported: false }
+        E9Cfg { full_wrappers: false, junk_pre: vec![0, 3, 6, 11, 16, 19, 21], junk_post: vec![0, 1, 8], odd: true, depth2: true, only_supported: false }
     } else {
-        E9Cfg { full_wrappers: true, junk_pre: (0..21).collect(), junk_post: (0..16).collect(), odd: true, depth2: true, only_supported: false }
+        E9Cfg { full_wrappers: true, junk_pre: (0..23).collect(), junk_post: (0..16).collect(), odd: true, depth2: true, only_supported: false }
     };
     let mut f = |st: &mut Local, eng: &str, i: u64, c: &FileCase| {
         c01_check(ctx, st, eng, i, &c.bytes, true);
@@ -695,9 +695,9 @@ pub fn c06_check(ctx: &Ctx, st: &mut Local, eng: &str, idx: u64, c: &FileCase) {
 
 pub fn run_c06(ctx: &Ctx, st: &mut Local) {
     let cfg = if ctx.quick() {
-        E9Cfg { full_wrappers: false, junk_pre: vec![0, 1, 3, 6, 8, 11, 12, 15, 16, 17, 18, 19, 20], junk_post: vec![0, 1, 3, 10], odd: false, depth2: true, only_supported: true }
+        E9Cfg { full_wrappers: false, junk_pre: vec![0, 1, 3, 6, 8, 11, 12, 15, 16, 17, 18, 19, 20, 21, 22], junk_post: vec![0, 1, 3, 10], odd: false, depth2: true, only_supported: true }
     } else {
-        E9Cfg { full_wrappers: true, junk_pre: (0..21).collect(), junk_post: (0..16).collect(), odd: false, depth2: true, only_supported: true }
+        E9Cfg { full_wrappers: true, junk_pre: (0..23).collect(), junk_post: (0..16).collect(), odd: false, depth2: true, only_supported: true }
     };
     let mut f = |st: &mut Local, eng: &str, i: u64, c: &FileCase| c06_check(ctx, st, eng, i, c);
     e9_filespace(ctx, "E9", &cfg, st, &mut f);
